@@ -726,3 +726,75 @@ fn blend_single(
         BlendMode::Skip => {}
     }
 }
+
+/// Verification hooks (`--cfg jxl_oxide_verif`): one pixel through the real mode selection
+/// (`BlendParams::from_*`) and the real kernel (`blend_single`).
+#[cfg(jxl_oxide_verif)]
+pub mod verif {
+    use super::*;
+
+    fn run(params: Option<BlendParams<'_>>, base: &mut [f32; 1], new: &[f32; 1]) {
+        let Some(mut params) = params else { return };
+        params.width = 1;
+        params.height = 1;
+        let base_grid = MutableSubgrid::from_buf(&mut base[..], 1, 1, 1);
+        let new_grid = SharedSubgrid::from_buf(&new[..], 1, 1, 1);
+        blend_single(base_grid, new_grid, &params);
+    }
+
+    /// Blends one sample of channel `channel_idx` as a frame with the given blending info would.
+    pub fn blend_frame_pixel(
+        channel_idx: usize,
+        color_channels: usize,
+        info: &BlendingInfo,
+        premultiplied: Option<bool>,
+        base: f32,
+        new: f32,
+        base_alpha: Option<f32>,
+        new_alpha: Option<f32>,
+    ) -> f32 {
+        let ba = base_alpha.map(|v| [v]);
+        let na = new_alpha.map(|v| [v]);
+        let bas = ba.as_ref().map(|b| SharedSubgrid::from_buf(&b[..], 1, 1, 1));
+        let nas = na.as_ref().map(|b| SharedSubgrid::from_buf(&b[..], 1, 1, 1));
+        let params = BlendParams::from_blending_info(
+            channel_idx,
+            color_channels,
+            info,
+            bas,
+            nas,
+            premultiplied,
+        );
+        let mut b = [base];
+        run(Some(params), &mut b, &[new]);
+        b[0]
+    }
+
+    /// Same for a patch with the given patch blending information.
+    pub fn blend_patch_pixel(
+        channel_idx: usize,
+        color_channels: usize,
+        info: &BlendingModeInformation,
+        premultiplied: Option<bool>,
+        base: f32,
+        new: f32,
+        base_alpha: Option<f32>,
+        new_alpha: Option<f32>,
+    ) -> f32 {
+        let ba = base_alpha.map(|v| [v]);
+        let na = new_alpha.map(|v| [v]);
+        let bas = ba.as_ref().map(|b| SharedSubgrid::from_buf(&b[..], 1, 1, 1));
+        let nas = na.as_ref().map(|b| SharedSubgrid::from_buf(&b[..], 1, 1, 1));
+        let params = BlendParams::from_patch_blending_info(
+            channel_idx,
+            color_channels,
+            info,
+            bas,
+            nas,
+            premultiplied,
+        );
+        let mut b = [base];
+        run(params, &mut b, &[new]);
+        b[0]
+    }
+}
